@@ -64,6 +64,11 @@ BUILTIN_FRESH_CONTAINER = {"list", "tuple", "sorted", "reversed", "enumerate", "
                            "dict", "sum", "map", "filter", "frozenset", "next"}
 LIB_ROOTS_EXTRA = {"warnings", "itertools", "json", "math", "os", "sys", "bisect"}
 
+UFUNC_BINARY = {"add", "subtract", "multiply", "divide", "true_divide", "floor_divide", "power", "maximum",
+                "minimum", "mod", "remainder", "arctan2", "hypot", "fmax", "fmin", "logaddexp", "copysign"}
+UFUNC_UNARY = {"abs", "absolute", "fabs", "sqrt", "exp", "log", "sin", "cos", "tan", "negative", "square",
+               "reciprocal", "sign", "floor", "ceil", "rint", "log10", "log2", "exp2", "expm1", "log1p", "tanh",
+               "sinh", "cosh", "arcsin", "arccos", "arctan", "conjugate", "isnan_", "cbrt"}
 EXT_KINDS = ("P", "PE", "CB")
 
 
@@ -846,6 +851,9 @@ class Interp:
                 fv = joinall(self.eng.FIELD.get((k, name), BOT) for k in known)
                 if fv.funcs:
                     return self.call_value(fv, args, kws, e, starkw)
+            if name == "astype" and any(k.arg == "copy" and isinstance(k.value, ast.Constant)
+                                        and k.value.value is False for k in e.keywords):
+                return AV(recv.own | {("F", self.site(e))}, recv.elem, recv.funcs, ())
             if name in FRESH_METHODS:
                 # x.copy(): deep for ndarrays (the dominant case in this package), shallow for Python
                 # containers -- the contents are kept only when the receiver is known to be one
@@ -959,6 +967,14 @@ class Interp:
                     self.eng.escaping.add(q)
         if name in LIB_MUTATORS and args:
             self.sink(args[LIB_MUTATORS[name]], e, f"np.{name} destination", kind="libmut")
+        if name in UFUNC_BINARY and len(args) >= 3:
+            # np.multiply(a, b, a): the third positional argument of a binary ufunc is `out`
+            self.sink(args[2], e, f"positional out argument of np.{name}", kind="out")
+        if name in UFUNC_UNARY and len(args) >= 2:
+            self.sink(args[1], e, f"positional out argument of np.{name}", kind="out")
+        if name in ("nan_to_num",) and args and any(
+                k.arg == "copy" and isinstance(k.value, ast.Constant) and k.value.value is False for k in e.keywords):
+            self.sink(args[0], e, "np.nan_to_num(copy=False) rewrites its argument", kind="libmut")
         if name == "at" and args:  # ufunc.at(a, idx, b)
             self.sink(args[0], e, "ufunc.at destination", kind="libmut")
         if name in VIEW_FUNCS:
@@ -1452,6 +1468,11 @@ def syntactic_inplace_sites(repo):
                 if isinstance(n.func, ast.Attribute) and n.func.attr in MUT_METHODS:
                     out.append((q, n, "mutcall"))
                 if any(k.arg == "out" for k in n.keywords):
+                    out.append((q, n, "out"))
+                if isinstance(n.func, ast.Attribute) and isinstance(n.func.value, ast.Name) and \
+                        n.func.value.id in ("np", "numpy") and (
+                        (n.func.attr in UFUNC_BINARY and len(n.args) >= 3)
+                        or (n.func.attr in UFUNC_UNARY and len(n.args) >= 2)):
                     out.append((q, n, "out"))
                 if isinstance(n.func, ast.Attribute) and (n.func.attr in LIB_MUTATORS or n.func.attr == "at"):
                     out.append((q, n, "libmut"))
